@@ -19,10 +19,30 @@ pub fn compile_and_search(text: &str, doc: &Value) -> Value {
     })
 }
 
+/// documents shared by the cases of a file ($EVAL_DOCS, written once by the TLC generator); a case refers to one by
+/// its 1-based index in field "d" and the observation carries the document itself
+fn pool_doc(i: usize) -> Option<Value> {
+    thread_local! { static POOL: std::cell::RefCell<Option<Vec<Value>>> = std::cell::RefCell::new(None); }
+    POOL.with(|p| {
+        let mut p = p.borrow_mut();
+        if p.is_none() {
+            let v = std::env::var("EVAL_DOCS").ok().and_then(|f| std::fs::read_to_string(f).ok()).and_then(|s| {
+                serde_json::from_str::<Value>(s.lines().next().unwrap_or("")).ok()
+            });
+            *p = Some(v.and_then(|v| v["docs"].as_array().cloned()).unwrap_or_default());
+        }
+        p.as_ref().unwrap().get(i.wrapping_sub(1)).cloned()
+    })
+}
+
 pub fn run_case(case: &Value) -> Value {
     let mut obs = case.clone();
+    if let Some(i) = case.get("d").and_then(|x| x.as_u64()) {
+        let doc = pool_doc(i as usize).unwrap_or(json!({"t":"null"}));
+        obs.as_object_mut().unwrap().insert("doc".into(), doc);
+    }
     let text = uncps(&case["text"]);
-    let out = compile_and_search(&text, &case["doc"]);
+    let out = compile_and_search(&text, &obs["doc"]);
     let m = obs.as_object_mut().unwrap();
     m.insert("out".into(), out);
     if case.get("want_ast").and_then(|x| x.as_bool()).unwrap_or(false) {
